@@ -20,17 +20,36 @@ HALF = Num(Fraction(1, 2))
 class UFBatchTarget:
     """Row-wise uninterpreted target: logp_batch(X)[r] = LP(X[r,:]); gradient rows = dLP_i(X[r,:])."""
 
-    def __init__(self, dim, tag="LPB"):
+    def __init__(self, dim, tag="LPB", nan_mode=False):
         self.dim = dim
         self.lp = z3.Function(tag, *([z3.RealSort()] * (dim + 1)))
         self.gr = [z3.Function("d%s_%d" % (tag, i), *([z3.RealSort()] * (dim + 1))) for i in range(dim)]
+        self.nan_mode = nan_mode
+        self.lp_nan = z3.Function(tag + "_isnan", *([z3.RealSort()] * dim + [z3.BoolSort()]))
+        self.gr_nan = z3.Function("d" + tag + "_isnan", *([z3.RealSort()] * dim + [z3.BoolSort()]))
+
+    def pos_nan(self, row):
+        n = None
+        for x in row:
+            n = mirsym.nan_or(n, Num.of(x).nan)
+        return n
+
+    def logp_is_nan(self, row):
+        zs = [Num.of(x).z() for x in row]
+        return mirsym.nan_or(self.lp_nan(*zs), self.pos_nan(row))
 
     def logp(self, row):
-        return Num(self.lp(*[Num.of(x).z() for x in row]))
+        zs = [Num.of(x).z() for x in row]
+        if not self.nan_mode:
+            return Num(self.lp(*zs))
+        return Num(self.lp(*zs), self.logp_is_nan(row))
 
     def grad(self, row):
         zs = [Num.of(x).z() for x in row]
-        return [Num(g(*zs)) for g in self.gr]
+        if not self.nan_mode:
+            return [Num(g(*zs)) for g in self.gr]
+        n = mirsym.nan_or(self.gr_nan(*zs), self.pos_nan(row))
+        return [Num(g(*zs), n) for g in self.gr]
 
     def grad_arr(self, a):
         out = np.empty(a.shape, dtype=object)
@@ -242,3 +261,51 @@ def replay_hmc_seed():
     bad = [p for p, r in nat.items() if isinstance(r, dict) and r.get("equal") is False]
     return bool(bad), {"case": {"case": "hmc_same_seed_twice", "seed": 42, "n_collect": 3}, "native": nat, "reproduced_in": bad,
                        "note": "two HMC samplers built from the same inputs and seed, run one after the other in one process"}
+
+
+
+def RP_NAN_HMC(model):
+    import m_replay
+    return m_replay.replay_nan("hmc")
+
+
+def c14_hmc(out, tier, seed):
+    eng = mir_load.load_engine()
+    mirsym.MUL_MODE["mode"] = "uf"
+    configs = [(2, 1, 1), (1, 2, 1), (1, 1, 2)] + ([(2, 2, 2), (1, 1, 3)] if tier == "thorough" else [])
+    u = MUnit(out, "C14", "c14_hmc", eng, functions=["HMC::step", "HMC::leapfrog"],
+              bounds=["(chains, dim, L) in %s; target value and gradient may be NaN at any point; every row starts at a "
+                      "non-NaN density" % (configs,)],
+              assumptions=["N-mode: real arithmetic plus a NaN flag with IEEE semantics (ordered comparisons false on NaN, "
+                           "arithmetic propagates); burn's greater_equal / mask_where follow them element-wise; a target "
+                           "evaluated at a NaN position answers NaN", "-inf densities are covered as arbitrarily negative reals only"],
+              out_of_scope=["overflow to +-inf inside burn kernels", "hangs"])
+    step = eng.find_fn("HMC::step")
+    try:
+        for (n, d, L) in configs:
+            T = UFBatchTarget(d, nan_mode=True)
+            T.install(eng)
+
+            def run(ctx, n=n, d=d, L=L):
+                X = [[ctx.fresh_real("x") for _ in range(d)] for _ in range(n)]
+                eps = ctx.fresh_real("eps")
+                for r in X:
+                    ctx.assume(z3.Not(T.logp_is_nan(r)))
+                me = hmc_struct(eng, step_size=eps, n_leapfrog=L, positions=Ten(obj_array([v for r in X for v in r], (n, d))),
+                                last_grad_summands=Ten(obj_array([ctx.fresh_real("stale") for _ in range(n * d)], (n, d))),
+                                rng=Struct("SmallRng", ["seed"], [Opaque("state")]))
+                eng.call_fn(step, [Ref.to(me)])
+                return X, me
+            for ctx, res in eng.explore(run):
+                u.paths += 1
+                if isinstance(res, Exception):
+                    out.inconclusive.append("c14_hmc %s: %r" % ((n, d, L), res))
+                    continue
+                X, me = res
+                newpos = me.get("positions").a
+                for r in range(n):
+                    u.holds(ctx, "HMC never moves a chain to a state whose log-density is NaN (nor to NaN coordinates)",
+                            z3.Not(T.logp_is_nan(list(newpos[r]))), RP_NAN_HMC, "chains=%d dim=%d L=%d row=%d" % (n, d, L, r))
+    finally:
+        mirsym.MUL_MODE["mode"] = "exact"
+    u.done()
